@@ -1053,6 +1053,8 @@ package genetics
 //@     invariant [kept] forall i :: 0 <= i && i < len(speciesToKeep) ==> speciesToKeep[i] != nil && speciesToKeep[i].ExpectedOffspring > 0
 
 //@ ghost gTheSensor Int
+// gOutPos[i]: where node i of the genome sits in the list of link targets (non-sensor nodes) the mutation walks over
+//@ ghost gOutPos (Array Int Int)
 // connect-sensors: genes are only added from ONE sensor that no gene left before, and only to non-sensor nodes; each new gene carries
 // a number drawn during this call or the number of a recorded (non-recurrent) new-link innovation for the same pair.
 //@ func (*Genome).mutateConnectSensors
@@ -1061,6 +1063,8 @@ package genetics
 //@   assume_pre Intn
 //@   requires genomeShape(g) && !isNilIface(innovations)
 //@   set gTheSensor = disconnectedSensors[result] @ after 1 Intn
+//@   set gOutPos = upd(gOutPos, #idx1, len(outputs)) @ before 2 append
+//@   assert [allTargets] (forall i :: 0 <= i && i < len(g.Nodes) && !sensorNode(g.Nodes[i]) ==> 0 <= sel(gOutPos, i) && sel(gOutPos, i) < len(outputs) && outputs[sel(gOutPos, i)] == g.Nodes[i]) @ before 1 Intn
 //@   assert [recorded] arg1.innovationType == newLinkInnType && arg1.OutNodeId == output.Id && !arg1.IsRecurrent @ before 1 StoreInnovation
 //@   assert [fromTheSensor] arg1 != nil && fresh(arg1) && arg1.Link.InNode == gTheSensor && arg1.Link.OutNode == output && !sensorNode(output) && !arg1.Link.IsRecurrent && arg1.IsEnabled @ before 1 geneInsert
 //@   assert [novelNumber] !innovationFound ==> sel(gIssued, arg1.InnovationNum) && !sel(old(gIssued), arg1.InnovationNum) @ before 1 geneInsert
@@ -1071,10 +1075,12 @@ package genetics
 //@   loop 1:
 //@     invariant -1 <= #idx && #idx < len(g.Nodes) && fresh(sensors) && fresh(outputs) && allocated(sensors) && allocated(outputs) && base(sensors) != base(outputs) && sameSlice(g.Nodes, old(g.Nodes)) && nonNilNodes(g.Nodes)
 //@     invariant [oldMem] forall b :: wasAllocated(b) ==> Mem[*network.NNode][b] == old(Mem[*network.NNode][b])
+//@     invariant [allTargets] (forall i :: 0 <= i && i <= #idx && !sensorNode(g.Nodes[i]) ==> 0 <= sel(gOutPos, i) && sel(gOutPos, i) < len(outputs) && outputs[sel(gOutPos, i)] == g.Nodes[i])
 //@     invariant [classes] (forall k :: 0 <= k && k < len(sensors) ==> sensors[k] != nil && sensorNode(sensors[k])) && (forall k :: 0 <= k && k < len(outputs) ==> outputs[k] != nil && !sensorNode(outputs[k]))
 //@   loop 2:
 //@     invariant -1 <= #idx && #idx < len(sensors) && fresh(disconnectedSensors) && allocated(disconnectedSensors) && fresh(sensors) && fresh(outputs) && allocated(sensors) && allocated(outputs) && base(disconnectedSensors) != base(sensors) && base(disconnectedSensors) != base(outputs) && sameSlice(g.Genes, old(g.Genes)) && unchanged(g.Genes) && sameSlice(g.Nodes, old(g.Nodes))
 //@     invariant [oldMem] forall b :: wasAllocated(b) ==> Mem[*network.NNode][b] == old(Mem[*network.NNode][b])
+//@     invariant [allTargets] (forall i :: 0 <= i && i < len(g.Nodes) && !sensorNode(g.Nodes[i]) ==> 0 <= sel(gOutPos, i) && sel(gOutPos, i) < len(outputs) && outputs[sel(gOutPos, i)] == g.Nodes[i])
 //@     invariant [classes] (forall k :: 0 <= k && k < len(sensors) ==> sensors[k] != nil && sensorNode(sensors[k])) && (forall k :: 0 <= k && k < len(outputs) ==> outputs[k] != nil && !sensorNode(outputs[k]))
 //@     invariant [unconnected] forall k :: 0 <= k && k < len(disconnectedSensors) ==> disconnectedSensors[k] != nil && sensorNode(disconnectedSensors[k]) && (forall i :: 0 <= i && i < len(g.Genes) ==> g.Genes[i].Link.InNode.Id != disconnectedSensors[k].Id)
 //@   loop 3:
